@@ -354,7 +354,10 @@ def arrange(rng, draft, s0, mode=None):
                     doc = dict({idkw: url}, **doc)
                 target = url + "#" + _frag(rng, ["definitions", name])
             # second-level references inside the store document
-            if isinstance(doc, dict) and rng.random() < 0.4 and not has_nested_id(draft, doc):
+            # (fragment-only references inside a store document are only sound when the document's
+            #  own id, if any, is its retrieval URL: other ids are "embedded ids", issue 371)
+            if isinstance(doc, dict) and rng.random() < 0.4 and not has_nested_id(draft, doc) \
+                    and doc.get(idkw, url) == url:
                 inner = transform_local(rng, draft, doc, max_refs=2, siblings=False)
                 if inner.info.get("refs"):
                     doc = inner.schema
@@ -568,3 +571,14 @@ def unfold_for(draft, S, docs, insts, base="", max_inplace=12):
         return out
 
     return go(S, base, list(insts), 0)
+
+
+def arrangement_ok(arr):
+    """Construction self-check with the independent inliner: inline(S) must be S0 (modulo inert keys)."""
+    docs = dict(arr.store)
+    docs.update(arr.handler_docs)
+    try:
+        inl = inline(arr.draft, arr.schema, docs=docs, budget=12)
+    except InlineError:
+        return False
+    return strip_inert(arr.draft, inl) == strip_inert(arr.draft, arr.s0)
